@@ -9,13 +9,14 @@
             Run (actor ran alone from wherever it is to completion).                                  *)
 EXTENDS BlockCow
 
-VARIABLE l
+VARIABLES l,        \* next line
+          skipped   \* the rest of the current trace was given up (TraceSkip)
 
 Trace == TLCEval(ndJsonDeserialize("trace.ndjson"))
-tvars == <<vars, l>>
+tvars == <<vars, l, skipped>>
 HasEv == l <= Len(Trace)
 Ev == Trace[l]
-IsEv(e) == HasEv /\ Ev.ev = e /\ l' = l + 1
+IsEv(e) == HasEv /\ Ev.ev = e /\ l' = l + 1 /\ (IF e = "Reset" THEN skipped' = FALSE ELSE UNCHANGED skipped)
 
 \* abstract content of an observed block: classified quarters, or "the bytes the environment corrupted"
 FromObs(L, o, img) == IF o.x = "none" THEN [q |-> [j \in Q |-> o.q[j]], x |-> "none"]
@@ -47,10 +48,11 @@ BlankP == /\ lock' = "none"
           /\ wimg' = [w \in Wr |-> 0]
           /\ crashes' = 0 /\ inflight' = "none" /\ used' = {}
 
-TraceInit == /\ l = 1 /\ TLCSet(1, 1)
+TraceInit == /\ l = 1 /\ TLCSet(1, 1) /\ skipped = FALSE
              /\ lay = <<1, 1>> /\ blk = NilC /\ cow = NoCow /\ Blank /\ act = Label("Reset", "", 0)
 
 TraceReset == /\ IsEv("Reset")
+              /\ (l > 1 /\ ~skipped) => PrintT("OK|" \o ToString(l - 1))   \* the trace that ends at line l-1 was accepted
               /\ lay' = <<1, 1>> /\ blk' = NilC /\ cow' = NoCow /\ BlankP /\ act' = Label("Reset", "", 0)
 
 TraceSetup == /\ IsEv("Setup") /\ act.n = "Reset"
@@ -90,13 +92,22 @@ TraceCrash == /\ IsEv("Crash") /\ act.n # "Reset" /\ Ev.actor \in Actors
 TraceSilent == /\ HasEv /\ Ev.ev \in {"Adv", "Run", "Crash"} /\ act.n # "Reset" /\ Ev.actor \in Actors
                /\ IF Ev.ev = "Run" THEN Move(Ev.actor) /\ pc'[Ev.actor] # Done
                                    ELSE Step(Ev.actor) /\ ~Stopping(pc'[Ev.actor])
-               /\ UNCHANGED l /\ Notes
+               /\ UNCHANGED <<l, skipped>> /\ Notes
 
-TraceNext == TraceReset \/ TraceSetup \/ TraceAdv \/ TraceRun \/ TraceCrash \/ TraceSilent
+\* Give up the current trace (every event carries nr = line of the next Reset).  A trace counts as accepted only
+\* when its last line is reached without this action, so rejected traces do not stop the validation of later ones.
+TraceSkip == /\ HasEv /\ Ev.ev # "Reset" /\ ~skipped
+             /\ l' = Ev.nr /\ skipped' = TRUE /\ UNCHANGED vars
+
+TraceEnd == /\ l = Len(Trace) + 1 /\ ~skipped /\ Len(Trace) > 0
+            /\ PrintT("OK|" \o ToString(l - 1))
+            /\ l' = l + 1 /\ UNCHANGED <<vars, skipped>>
+
+TraceNext == TraceReset \/ TraceSetup \/ TraceAdv \/ TraceRun \/ TraceCrash \/ TraceSilent \/ TraceSkip \/ TraceEnd
 
 TraceSpec == TraceInit /\ [][TraceNext]_tvars
 
-HighWater == IF l > TLCGet(1) THEN TLCSet(1, l) ELSE TRUE
-TraceAccepted == /\ PrintT(<<"HWM", TLCGet(1) - 1>>)
-                 /\ TLCGet(1) - 1 = Len(Trace)
+HighWater == IF ~skipped /\ l > TLCGet(1) THEN TLCSet(1, l) ELSE TRUE
+\* HWM = number of lines consumed without giving a trace up (the verdict per trace is the "OK|<last line>" print)
+TraceAccepted == PrintT(<<"HWM", TLCGet(1) - 1>>)
 =============================================================================
